@@ -417,8 +417,9 @@ static std::string minimise(Engine &e, const std::string &plan, const std::strin
     std::vector<std::string> fixed;
     std::vector<size_t> order;  // positions
     std::vector<std::string> cur = lines;
+    double t_min0 = now_s();
     auto test = [&](const std::vector<std::string> &cand) -> bool {
-        if (reruns >= budget) return false;
+        if (reruns >= budget || now_s() - t_min0 > 90) return false;  // (re-runs of a step-budget violation cost seconds each)
         reruns++;
         RunResult r = run_plan_confirmed(e, join_lines(cand));
         return r.status == 1 && r.sig == sig;
